@@ -230,6 +230,14 @@ def abstraction_values(program, prog, params):
     return out
 
 
+def load_factor():
+    import os
+    try:
+        return float(os.environ.get("VERIF_LOAD_FACTOR", "1"))
+    except ValueError:
+        return 1.0
+
+
 class SoftTimeout(BaseException):
     """raised by soft_timeout inside a worker; BaseException so that Polar's own 'except Exception' cannot swallow it"""
 
@@ -238,7 +246,8 @@ class soft_timeout:
     """time-box an optional, expensive step inside run_case (the harness watchdog remains the hard limit)"""
 
     def __init__(self, seconds):
-        self.seconds = max(1, int(seconds))
+        # nominal seconds, stretched by the load factor the master measured (see harness.load_factor)
+        self.seconds = max(1, int(seconds * load_factor()))
 
     def __enter__(self):
         import signal
